@@ -30,8 +30,10 @@ AllNonces == Nonces \cup TokNonces
 Lives == {"default", "tiny", "mid"}      \* maximum token lifetime passed to the fetch
 StateOrNone == AppStates \cup {NONE}
 
+\* kt: type of the certificate public key held by the record ("ed" unless the stored record was edited);
+\* srv = 0: the record holds no server encryption key (incomplete record written directly to storage)
 AbsentNode == [present |-> FALSE, nonce |-> NONE, enc |-> NONE, state |-> NONE,
-               srv |-> 0, nid |-> NONE, prevk |-> NONE, prevsrv |-> 0, prevenc |-> NONE]
+               srv |-> 0, nid |-> NONE, prevk |-> NONE, prevsrv |-> 0, prevenc |-> NONE, kt |-> "ed"]
 
 (* token life-cycle: unborn -> fresh -> old -> gone; "broken": stored record
    whose sealed creation time no longer opens (transplanted) *)
@@ -55,7 +57,7 @@ Out(res, st) == [res |-> res, st |-> st]
 (***************************************************************************)
 NewRecord(st, e, n, s) ==
   [present |-> TRUE, nonce |-> n, enc |-> e, state |-> s, srv |-> st.gen + 1,
-   nid |-> NONE, prevk |-> NONE, prevsrv |-> 0, prevenc |-> NONE]
+   nid |-> NONE, prevk |-> NONE, prevsrv |-> 0, prevenc |-> NONE, kt |-> "ed"]
 
 AuthorizeCommon(st, k, e, n, s) ==
   [st EXCEPT !.nodes[k] = NewRecord(st, e, n, s), !.gen = st.gen + 1]
@@ -91,6 +93,12 @@ DoSetPrev(st, o) ==   \* NodeInformation.SetPreviousEncryptionKey(new := k, old 
                             !.nodes[o.k].prevenc = st.nodes[o.from].enc])
   ELSE Out("skip", st)
 
+DoSetKeyKind(st, o) ==   \* the stored record's certificate key is replaced by a non-Ed25519 key
+  IF st.nodes[o.k].present THEN Out("ok", [st EXCEPT !.nodes[o.k].kt = "other"]) ELSE Out("skip", st)
+
+DoStripSrv(st, o) ==     \* the stored record loses its server encryption key
+  IF st.nodes[o.k].present /\ st.nodes[o.k].srv # 0 THEN Out("ok", [st EXCEPT !.nodes[o.k].srv = 0]) ELSE Out("skip", st)
+
 DoTamperTime(st, o) ==   \* rewrite the clear creation_time of the stored token to "now"
   IF ~Live(st.tokens[o.t]) THEN Out("skip", st)
   ELSE IF st.cfg.sw THEN Out("ok", st)                         \* sealed copy governs: no effect
@@ -113,7 +121,7 @@ DoTransplant(st, o) ==   \* copy the sealed creation time of token t2 into the r
 \* does the record of cert key `by` open a message sealed with the node-side key of record `with`
 OpensWith(st, by, with) ==
   /\ by \in CertKeys /\ st.nodes[by].present
-  /\ with \in CertKeys /\ st.nodes[with].present
+  /\ with \in CertKeys /\ st.nodes[with].present /\ st.nodes[with].srv # 0 /\ st.nodes[with].kt = "ed"
   /\ \/ with = by
      \/ /\ st.nodes[by].prevk = with
         /\ st.nodes[by].prevsrv = st.nodes[with].srv
@@ -132,7 +140,8 @@ DoFetch(st, r) ==
         ELSE Out("issued", AuthorizeCommon(st, r.k, r.e, r.n, NONE))
   ELSE IF r.n \in Nonces THEN
      IF ~st.nodes[r.k].present THEN Out("empty", st)
-     ELSE IF st.nodes[r.k].nonce = r.n /\ st.nodes[r.k].enc = r.e THEN Out("issued", st)
+     ELSE IF st.nodes[r.k].nonce = r.n /\ st.nodes[r.k].enc = r.e /\ st.nodes[r.k].kt = "ed" /\ st.nodes[r.k].srv # 0
+          THEN Out("issued", st)
      ELSE Out("error", st)
   ELSE \* token-shaped (or garbage) nonce
      IF r.n \notin Tokens THEN Out("error", st)
@@ -163,14 +172,14 @@ DoSubmit(st, v) ==   \* the underlying request is a node-led one for an unregist
 (* C05: tls.GenerateServerCertificates                                     *)
 (* q = [k, nid, order, nsig, hasState, ssig, skip]                          *)
 (***************************************************************************)
-Verified(q, c) == q.nsig = c /\ (q.hasState => q.ssig = c)
+Verified(st, q, c) == st.nodes[c].kt = "ed" /\ q.nsig = c /\ (q.hasState => q.ssig = c)
 
 LookupSeq(st, q) ==   \* records examined, in order
   IF q.nid # NONE /\ st.cfg.nidl
   THEN SelectSeq(q.order, LAMBDA c : st.nodes[c].present /\ st.nodes[c].nid = q.nid)
   ELSE IF st.nodes[q.k].present THEN <<q.k>> ELSE <<>>
 
-GenOK(st, q) == \E i \in 1..Len(LookupSeq(st, q)) : Verified(q, LookupSeq(st, q)[i])
+GenOK(st, q) == \E i \in 1..Len(LookupSeq(st, q)) : Verified(st, q, LookupSeq(st, q)[i])
 
 DoGenCerts(st, q) ==
   IF q.skip THEN Out(IF q.hasState THEN "certs+state" ELSE "certs", st)
@@ -180,20 +189,20 @@ DoGenCerts(st, q) ==
 
 (***************************************************************************)
 (* C10: rotation.RotateNodeCredentials                                     *)
-(* q = [k, nid, order, src, which, k2, e2, n2]                              *)
+(* q = [k, nid, order, src, which, k2, e2, n2, ostate]                      *)
 (*   src/which: the payload is sealed with the node-side key of record src *)
 (*              ("cur") or with the key that record src remembers as its   *)
 (*              previous one ("prev"); src = "rand": unrelated key         *)
 (***************************************************************************)
 KeyTriple(st, src, which) ==
   IF src \notin CertKeys \/ ~st.nodes[src].present THEN <<0, NONE, NONE>>
-  ELSE IF which = "cur" THEN <<st.nodes[src].srv, st.nodes[src].enc, src>>
+  ELSE IF which = "cur" THEN (IF st.nodes[src].kt = "ed" THEN <<st.nodes[src].srv, st.nodes[src].enc, src>> ELSE <<0, NONE, NONE>>)
   ELSE IF st.nodes[src].prevk = NONE THEN <<0, NONE, NONE>>
   ELSE <<st.nodes[src].prevsrv, st.nodes[src].prevenc, st.nodes[src].prevk>>
 
 RecOpens(st, c, tr) ==
   /\ tr[1] # 0
-  /\ \/ tr = <<st.nodes[c].srv, st.nodes[c].enc, c>>
+  /\ \/ (st.nodes[c].kt = "ed" /\ tr = <<st.nodes[c].srv, st.nodes[c].enc, c>>)
      \/ (st.nodes[c].prevk # NONE /\ tr = <<st.nodes[c].prevsrv, st.nodes[c].prevenc, st.nodes[c].prevk>>)
 
 RotLookup(st, q) ==
@@ -211,6 +220,10 @@ DoRotate(st, q) ==
   IF Len(os) = 0 THEN [res |-> "error", st |-> st, by |-> NONE]
   ELSE LET c == os[1] IN
     IF q.n2 \notin Nonces \/ st.nodes[q.k2].present THEN [res |-> "error", st |-> st, by |-> c]
+    ELSE IF st.nodes[c].srv = 0
+         \* authenticated through the recorded previous key of an incomplete record: the new key is
+         \* registered, then sealing the reply fails (an honoured request that errors late)
+         THEN [res |-> "error", st |-> AuthorizeCommon(st, q.k2, q.e2, q.n2, st.nodes[c].state), by |-> c]
     ELSE [res |-> "rotated", st |-> AuthorizeCommon(st, q.k2, q.e2, q.n2, st.nodes[c].state), by |-> c]
 
 (***************************************************************************)
@@ -224,6 +237,8 @@ Apply(st, o) ==
     [] o.op = "SetRegw"     -> DoSetRegw(st, o)
     [] o.op = "SetNid"      -> DoSetNid(st, o)
     [] o.op = "SetPrev"     -> DoSetPrev(st, o)
+    [] o.op = "SetKeyKind"  -> DoSetKeyKind(st, o)
+    [] o.op = "StripSrv"    -> DoStripSrv(st, o)
     [] o.op = "TamperTime"  -> DoTamperTime(st, o)
     [] o.op = "Transplant"  -> DoTransplant(st, o)
     [] o.op = "Fetch"       -> DoFetch(st, o)
@@ -259,17 +274,25 @@ RegwOps == [op : {"SetRegw"}, w : {NONE, "W1"}]
 AgeOps == {[op |-> "AgeAll"]}
 NidOps == [op : {"SetNid"}, k : CertKeys, nid : NodeIds]
 PrevOps == [op : {"SetPrev"}, k : CertKeys, from : CertKeys]
+KeyKindOps == [op : {"SetKeyKind"}, k : CertKeys]
+StripOps == [op : {"StripSrv"}, k : CertKeys]
 TamperOps == [op : {"TamperTime"}, t : Tokens] \cup [op : {"Transplant"}, t : Tokens, t2 : Tokens]
 
 Perms(S) == {s \in [1..Cardinality(S) -> S] : \A i, j \in 1..Cardinality(S) : i # j => s[i] # s[j]}
 
-GenCertOps == [op : {"GenCerts"}, k : CertKeys, nid : NodeIds \cup {NONE}, order : Perms(CertKeys),
+GenCertOpsAll == [op : {"GenCerts"}, k : CertKeys, nid : NodeIds \cup {NONE}, order : Perms(CertKeys),
                nsig : CertKeys \cup {NONE, "kx"}, hasState : BOOLEAN, ssig : CertKeys \cup {NONE, "kx"},
                skip : BOOLEAN]
 
-RotateOps == [op : {"Rotate"}, k : CertKeys, nid : NodeIds \cup {NONE}, order : Perms(CertKeys),
+RotateOpsAll == [op : {"Rotate"}, k : CertKeys, nid : NodeIds \cup {NONE}, order : Perms(CertKeys),
               src : CertKeys \cup {"rand"}, which : {"cur", "prev"},
-              k2 : CertKeys, e2 : EncKeys, n2 : Nonces \cup Tokens]
+              k2 : CertKeys, e2 : EncKeys, n2 : Nonces \cup Tokens,
+              ostate : StateOrNone]     \* a WithState option the caller happens to pass: must not matter
+
+IdOrder == CHOOSE p \in Perms(CertKeys) : TRUE
+\* the delivery order only matters on the node-ID path: other requests are normalised to one order
+GenCertOps == {q \in GenCertOpsAll : q.nid = NONE => q.order = IdOrder}
+RotateOps == {q \in RotateOpsAll : q.nid = NONE => q.order = IdOrder}
 
 \* C03 universe: validity window on a minute grid around now = 0, skew configurations, mutation classes.
 \* Grid points on a window edge are excluded (real time moves while the call runs).
@@ -277,15 +300,16 @@ GridNB == {-2000, -30, -3, 2, 40}
 GridNA == {-40, -2, 3, 30, 2000}
 SkewNB == {0, -5, -60}
 SkewNA == {0, 5, 60}
+\* prime: the genuine (unmutated) request was presented once before (an ordinary poll); must not matter
 SubmitOps == {v \in [op : {"Submit"}, api : {"authorize", "fetch"}, mut : Muts, nb : GridNB, na : GridNA,
-                      sknb : SkewNB, skna : SkewNA, k : CertKeys, e : EncKeys, n : Nonces] :
+                      sknb : SkewNB, skna : SkewNA, k : CertKeys, e : EncKeys, n : Nonces, prime : BOOLEAN] :
                  v.nb < v.na /\ v.nb + v.sknb # 0 /\ v.na + v.skna # 0}
 
 (***************************************************************************)
 (* Property predicates (exactly what the listed properties state)          *)
 (***************************************************************************)
 \* ---- C01 ----
-CaseA(st, r) == st.nodes[r.k].present /\ st.nodes[r.k].nonce = r.n /\ st.nodes[r.k].enc = r.e
+CaseA(st, r) == st.nodes[r.k].present /\ st.nodes[r.k].nonce = r.n /\ st.nodes[r.k].enc = r.e /\ st.nodes[r.k].kt = "ed"
 CaseB(st, r) == r.n \in Tokens /\ Live(st.tokens[r.n]) /\ ~Expired(st.tokens[r.n], r.life)
 CaseC(st, r) ==
   \/ (HasWrapped(r) /\ st.regw # NONE /\ r.ww = st.regw /\ r.wn = r.n /\ r.wk = r.k)
@@ -316,11 +340,16 @@ AllowedC05(pre, q, res) ==
 
 \* ---- C10 ----
 RotHonoured(pre, q) == Len(RotOpeners(pre, q)) > 0
+RotOpenerSet(pre, q) == {RotOpeners(pre, q)[i] : i \in 1..Len(RotOpeners(pre, q))}
+\* requests the property says must be refused: not sealed with a key of a stored record of the identified
+\* node, an activation-token nonce inside, or a replay (the new key is already registered)
+RotMustRefuse(pre, q) == ~RotHonoured(pre, q) \/ q.n2 \notin Nonces \/ pre.nodes[q.k2].present
 AllowedC10(pre, q, res, post) ==
-  /\ (res = "rotated" => RotHonoured(pre, q) /\ q.n2 \in Nonces /\ ~pre.nodes[q.k2].present)
-  /\ (res = "rotated" => \E c \in CertKeys : c \in {RotOpeners(pre, q)[i] : i \in 1..Len(RotOpeners(pre, q))}
-                                       /\ post.nodes[q.k2].state = pre.nodes[c].state)
-  /\ (res # "rotated" => post.nodes = pre.nodes)
+  /\ (res = "rotated" => ~RotMustRefuse(pre, q))
+  /\ (RotMustRefuse(pre, q) => res # "rotated" /\ post.nodes = pre.nodes)
+  \* whenever the new key gets registered, it carries the state of a record that authenticated the request
+  /\ (post.nodes[q.k2].present /\ ~pre.nodes[q.k2].present =>
+        \E c \in RotOpenerSet(pre, q) : post.nodes[q.k2].state = pre.nodes[c].state)
   /\ (\A c \in CertKeys : c # q.k2 => post.nodes[c] = pre.nodes[c])
 
 =============================================================================
